@@ -36,6 +36,9 @@ type Case struct {
 	// in the current state, at another table (the lowest-numbered current table other than j, over
 	// the same column): the differ reports ModifyForeignKey (reference changed).
 	Retarget bool `json:"retarget,omitempty"`
+	// Cols: every kept table also loses (1) or gains (2) a column that takes part in no key, so that
+	// its ModifyTable mixes column and foreign-key changes.
+	Cols int `json:"cols,omitempty"`
 }
 
 func (c Case) two() bool { return c.Schemas >= 2 }
@@ -97,6 +100,9 @@ func build(c Case, dialect string) (cur, des *schema.Realm) {
 			t.AddColumns(id)
 			for j := 0; j < c.N; j++ {
 				t.AddColumns(&schema.Column{Name: fmt.Sprintf("r%d", j), Type: &schema.ColumnType{Type: intT(), Null: true}})
+			}
+			if c.Split[i] == 0 && (current && c.Cols == 1 || !current && c.Cols == 2) {
+				t.AddColumns(&schema.Column{Name: "note", Type: &schema.ColumnType{Type: intT(), Null: true}})
 			}
 			t.SetPrimaryKey(schema.NewPrimaryKey(id))
 			tabs[i] = t
@@ -375,7 +381,7 @@ func splits(n int, f func([]int)) {
 
 func Run(r *report.Run) {
 	maxFull := 3
-	r.Rule = "every directed graph with self loops on n tables (n<=3: all 2^(n*n) graphs x all 3^n splits of the tables into kept/created/dropped x 3 modes for edges between kept tables {unchanged, added, dropped} x {MySQL, PostgreSQL} x plan mode {unset, deferred, in-place, dump}, and for n in 2..3 also with the tables spread over two schemas so that tables of different schemas share a name (realm diff, schema-qualified statements); thorough adds n=4: all 65536 graphs x all 81 splits with kept-kept edges added, x 2 dialects, plan mode unset); changes from the real differ, plans from the real planners, every change set planned twice (identical plans required); each plan's statements are replayed from their text by a reference catalogue of existing tables and live foreign keys; non-trivial = case with a non-empty plan; distinct by construction"
+	r.Rule = "every directed graph with self loops on n tables (n<=3: all 2^(n*n) graphs x all 3^n splits of the tables into kept/created/dropped x 3 modes for edges between kept tables {unchanged, added, dropped} x {MySQL, PostgreSQL} x plan mode {unset, deferred, in-place, dump}, for n<=3 also with the kept tables' foreign keys retargeted (ModifyForeignKey) and with every kept table losing / gaining an unrelated column in the same change, and for n in 2..3 also with the tables spread over two schemas (in a third layout a schema that loses all its tables is dropped) so that tables of different schemas share a name (realm diff, schema-qualified statements); thorough adds n=4: all 65536 graphs x all 81 splits with kept-kept edges added, x 2 dialects, plan mode unset); changes from the real differ, plans from the real planners, every change set planned twice (identical plans required); each plan's statements are replayed from their text by a reference catalogue of existing tables and live foreign keys; non-trivial = case with a non-empty plan; distinct by construction"
 	r.Assumptions = []string{
 		"statement text is parsed by regular expressions over names the generator chose (t<i>, fk_<i>_<j>)",
 		"random larger graphs are not claimed (sampling is a different family)",
@@ -453,20 +459,25 @@ func Run(r *report.Run) {
 								if rt && (kk != 0 || mi != 0 || j.n > 3 || nk == 0 || lay == 3) {
 									continue
 								}
-								c := Case{N: j.n, Graph: j.graph, Split: append([]int(nil), sp...), KK: kk, Dialect: d, Mode: m, Schemas: lay, Retarget: rt}
-								key := fmt.Sprintf("%d-%v", w, c)
-								cur.Store(key, time.Now())
-								problems, stmts := Eval(c)
-								cur.Delete(key)
-								plans.Add(1)
-								if len(stmts) > 0 {
-									nonEmpty.Add(1)
-								}
-								if len(problems) > 0 {
-									r.Violate(classify(c, problems), fmt.Sprintf("n=%d graph=%s split=%v kk=%d retarget=%v %s mode=%d schemas=%d: %s\n    plan: %s", c.N, edges(c), c.Split, c.KK, c.Retarget, c.Dialect, c.Mode, c.Schemas, strings.Join(problems, " | "), strings.Join(stmts, ";\n          ")), c)
-								}
-								if j.n == 3 && j.graph == 0b010001100 && kk == 1 && d == "postgres" && m == 0 && sp[0] == 0 && sp[1] == 1 && sp[2] == 2 {
-									r.Sample(map[string]any{"case": c, "edges": edges(c), "plan": stmts})
+								for _, cols := range []int{0, 1, 2} {
+									if cols != 0 && (rt || mi != 0 || j.n > 3 || nk == 0 || lay != 0) {
+										continue
+									}
+									c := Case{N: j.n, Graph: j.graph, Split: append([]int(nil), sp...), KK: kk, Dialect: d, Mode: m, Schemas: lay, Retarget: rt, Cols: cols}
+									key := fmt.Sprintf("%d-%v", w, c)
+									cur.Store(key, time.Now())
+									problems, stmts := Eval(c)
+									cur.Delete(key)
+									plans.Add(1)
+									if len(stmts) > 0 {
+										nonEmpty.Add(1)
+									}
+									if len(problems) > 0 {
+										r.Violate(classify(c, problems), fmt.Sprintf("n=%d graph=%s split=%v kk=%d retarget=%v cols=%d %s mode=%d schemas=%d: %s\n    plan: %s", c.N, edges(c), c.Split, c.KK, c.Retarget, c.Cols, c.Dialect, c.Mode, c.Schemas, strings.Join(problems, " | "), strings.Join(stmts, ";\n          ")), c)
+									}
+									if j.n == 3 && j.graph == 0b010001100 && kk == 1 && d == "postgres" && m == 0 && sp[0] == 0 && sp[1] == 1 && sp[2] == 2 && !c.Retarget && c.Cols == 0 && c.Schemas == 0 {
+										r.Sample(map[string]any{"case": c, "edges": edges(c), "plan": stmts})
+									}
 								}
 							}
 						}
